@@ -156,6 +156,11 @@ class ConfigLeg(object):
                     sp["options"] = draw(st.sampled_from(["default", "default", "no-inference", "force_gff"]))
                 elif draw(st.integers(0, 3)) == 0:
                     sp["shallow"] = draw(st.sampled_from(["genes-only", "two-level"]))  # GFF3 without grandchildren
+                z = draw(st.integers(0, 9))
+                if z == 0:
+                    sp["gz_fasta"] = True  # gzip-compressed input that ends in a ##FASTA section
+                elif z == 1 and not sp["gtf"]:
+                    sp["duplicate_id"] = True  # an import that is expected to fail (duplicate ID) next to the others
             return {"inputs": inputs, "procs": n, "assign": assign, "offsets_ms": offsets,
                     "readers": draw(st.sampled_from([2, 4, 8, 16, 32])),
                     "same_basename": draw(st.booleans())}
@@ -182,6 +187,16 @@ class ConfigLeg(object):
         os.makedirs(outdir)
         # inputs and their solitary imports
         paths, solo = [], []
+        old_tmp = tempfile.tempdir
+        tempfile.tempdir = shared_tmp
+        try:
+            return self._check_inner(case, ctx, shared_tmp, outdir, paths, solo)
+        finally:
+            tempfile.tempdir = old_tmp
+
+    def _check_inner(self, case, ctx, shared_tmp, outdir, paths, solo):
+        import gffutils
+
         for i, spec in enumerate(case["inputs"]):
             p = os.path.join(outdir, "in%d.txt" % i)
             text = make_annotation(spec)
@@ -191,18 +206,34 @@ class ConfigLeg(object):
                 text = "\n".join(l for l in text.splitlines() if "\tgene\t" in l or "\tmRNA\t" in l) + "\n"
             if spec.get("cds_only"):
                 text = "\n".join(l for l in text.splitlines() if "\texon\t" not in l) + "\n"
-            with open(p, "w") as fh:
-                fh.write(text)
+            if spec.get("duplicate_id"):
+                first = text.splitlines()[0]
+                text = text + first + "\n"  # the first line again: same ID, default merge_strategy='error'
+            if spec.get("gz_fasta"):
+                import gzip
+
+                p = p + ".gz"
+                with gzip.open(p, "wb") as fh:
+                    fh.write((text + "##FASTA\n>chr1\nACGTACGT\n").encode("utf-8"))
+            else:
+                with open(p, "w") as fh:
+                    fh.write(text)
             paths.append(p)
+            if spec.get("duplicate_id"):
+                solo.append("fails")
+                continue
             db = gffutils.create_db(p, os.path.join(outdir, "solo%d.db" % i), **_kwargs(spec))
             solo.append(dbsnap.snapshot(db))
             db.conn.close()
+        if os.listdir(shared_tmp):
+            return Failure("a solitary import left %r in the temp dir" % sorted(os.listdir(shared_tmp))[:3], sig={"kind": "temp-left"})
         leftovers = [n for n in os.listdir(ctx.tmp) if n not in ("shared_tmp", "out")]
         n = case["procs"]
         mp = multiprocessing.get_context("fork")
         start_barrier = mp.Barrier(n)
         # only imports that create an intermediate file meet at the temp-file barrier
-        n_tf = sum(1 for k in range(n) if case["inputs"][case["assign"][k]].get("options") != "no-inference")
+        n_tf = sum(1 for k in range(n) if case["inputs"][case["assign"][k]].get("options") != "no-inference"
+                   and not case["inputs"][case["assign"][k]].get("duplicate_id"))
         tf_barrier = mp.Barrier(max(1, n_tf))
         queue = mp.Queue()
         procs = []
@@ -226,9 +257,13 @@ class ConfigLeg(object):
             return Failure("%d of %d importer processes did not report" % (n - len(res), n), sig={"kind": "worker-lost"})
         for k in range(n):
             item = res[k]
+            want = solo[case["assign"][k]]
+            if want == "fails":
+                if item[1] == "ok":
+                    return Failure("an import with a duplicate ID succeeded when run concurrently", sig={"kind": "import-should-fail"})
+                continue
             if item[1] != "ok":
                 return Failure("concurrent import %d of %d failed: %s" % (k, n, item[2]), sig={"kind": "import-raised"})
-            want = solo[case["assign"][k]]
             if item[2] != want:
                 return Failure("concurrent import %d of %d differs from the solitary import of the same input: %s"
                                % (k, n, dbsnap.diff(want, item[2])), sig={"kind": "differs-from-solitary"})
@@ -243,7 +278,10 @@ class ConfigLeg(object):
         ctx.count("workers that met at the temp-file barrier", met)
         ctx.count("configurations with overlap", 1 if overlap else 0)
         # the files on disk, reopened
-        for k in (0, n - 1):
+        good = [k for k in range(n) if solo[case["assign"][k]] != "fails"]
+        if not good:
+            return None
+        for k in (good[0], good[-1]):
             db = gffutils.FeatureDB(outs[k])
             s = dbsnap.snapshot(db)
             db.conn.close()
@@ -253,14 +291,14 @@ class ConfigLeg(object):
         m = case["readers"]
         rb = mp.Barrier(m)
         rq = mp.Queue()
-        target = outs[0]
+        target = outs[good[0]]
         readers = [mp.Process(target=_reader_worker, args=(j, target, rb, rq)) for j in range(m)]
         for p in readers:
             p.start()
         rres = _collect(readers, rq, m)
         if len(rres) < m:
             return Failure("%d of %d reader processes did not report" % (m - len(rres), m), sig={"kind": "worker-lost"})
-        want = solo[case["assign"][0]]
+        want = solo[case["assign"][good[0]]]
         nfeat = len(want["features"])
         for j in range(m):
             item = rres[j]
